@@ -61,10 +61,10 @@ PROPS = {
         assumptions=[],
     ),
     'C10': dict(
-        level_text='Bounded model checking of the real format scanner against a token-grammar reference (every sequence of up to 3 tokens - 5 thorough - drawn from a 34-entry table of placeholders, literals, quoted/escaped/bracketed groups containing date letters, section separators, plain and elapsed date tokens), metamorphic relations on arbitrary printable-ASCII strings, the built-in id tables for all 2^16 codes / all 1-3 digit decimal ids, and the value wrapping for every f64/i64, format and date system.',
+        level_text='Bounded model checking of the real format scanner against a token-grammar reference (every sequence of up to 3 tokens - 5 thorough - drawn from a 44-entry table of placeholders, literals, quoted/escaped/bracketed groups containing date letters, section separators, plain and elapsed date tokens), metamorphic relations on arbitrary printable-ASCII strings, the built-in id tables for all 2^16 codes / all 1-3 digit decimal ids, and the value wrapping for every f64/i64, format and date system.',
         hosts={'src/formats.rs': ['c10_formats.rs']},
         functions=['formats::detect_custom_number_format', 'formats::builtin_format_by_id', 'formats::builtin_format_by_code', 'formats::format_excel_f64_ref', 'formats::format_excel_f64', 'formats::format_excel_i64'],
-        bounds={'grammar': 'token sequences of length 1..=3 (4,5 thorough) over the 34-token table', 'raw strings': 'printable ASCII, length <= 4 (6 thorough)',
+        bounds={'grammar': 'token sequences of length 1..=3 (4,5 thorough) over the 44-token table (both letter cases of the date and elapsed tokens)', 'raw strings': 'printable ASCII, length <= 4 (6 thorough)',
                 'built-ins': 'all u16 codes; decimal ids of 1..=3 digits without leading zero'},
         outside=['building the style table from styles.xml / styles.bin / XF+FORMAT records (XML, zip, inline in parse_workbook)', 'non-ASCII format strings', 'the * fill escape',
                  'per-record plumbing: decided under C02 (xls rk_num/parse_number with a symbolic format table) and C03 (xlsb)'],
@@ -119,6 +119,14 @@ PROPS = {
         outside=['everything that needs ZipArchive (read_shared_strings, read_workbook, styles)', 'XlsbCellsReader::new (dimension / block skipping)', 'RK x100 values that are not multiples of 100 in quick (f64 division)', 'records longer than 127 bytes in quick'],
         assumptions=['shared-string / style indices inside the tables (out-of-range: hostile input, C06)'],
     ),
+    'C04': dict(
+        level_text='Bounded model checking of the real ODS range builder (get_range: bounding box + re-expansion of repeated rows) against a dense expansion reference, on run-length grids of up to 4 physical rows (lengths 0..=3, repeat counts 1..=3 per shape) with symbolic cell contents: leading, interior and trailing empty runs, repeated data rows, rows of differing lengths, data starting right of column A; plus the repeat-vs-copies metamorphic relation.',
+        hosts={'src/ods.rs': ['c04_ods.rs']},
+        functions=['ods::get_range', 'ods::is_empty_row'],
+        bounds={'grid': '1..=4 physical rows, row length 0..=4, repeat 1..=3, emptiness pattern concrete per shape (12 quick / 15 thorough shapes), cell payloads symbolic', 'instantiation': 'get_range::<KCell> (harness cell type with concrete emptiness flag and symbolic payload)'},
+        outside=['read_row (column repeats, covered cells, empty_col_repeats) and get_datatype: written against quick_xml::Reader<BufReader<ZipFile>>', 'grids larger than the shapes'],
+        assumptions=['cols/rows_repeats describe the flat cell vector consistently (as parse_content builds them)'],
+    ),
 }
 
 # (regex on harness name, overrides). First match wins after defaults.
@@ -127,6 +135,7 @@ RULES = [
     (r'^c10_', dict(arena=64)),
     (r'^c18_', dict(arena=64)),
     (r'^c12_', dict(arena=64)),
+    (r'^c04_', dict(arena=64, timeout=300)),
     (r'^c03_', dict(arena=64)),
     (r'^c03_[qt]_fill_buffer', dict(arena=256)),
     (r'^c13_[qt]_(chain|cutoff|stream|twin)', dict(arena=64)),
